@@ -71,4 +71,7 @@ GetDataContract == pc = "gd_ret" => (got = want \/ (eos /\ D = L)) /\ got <= wan
 \* GetInternalBuffer returns a chunk of the next bytes, and nothing only when everything has been delivered
 IBufContract == pc = "ib_ret" => (chunk <= W /\ (chunk = 0 => (eos /\ D = L)))
 DeliveredInOrder == D <= L
+\* the counters follow the abstract machine whose inductive invariant Apalache discharges for every W, M, MaxFill with MaxFill + M <= W
+Abs == INSTANCE DrainBounds
+RefinesBounds == Abs!Spec
 ====
